@@ -1,4 +1,6 @@
 import SSV.Proofs.RouterTop
+import SSV.Proofs.RouterExamples
+import SSV.Proofs.RouterLoad
 /-
 C09 — Routing picks the first route whose documented conditions all hold.
 
@@ -188,6 +190,13 @@ theorem no_panic (p : Params) (env : Env) (cfg : Config) (r : Router) (q : Req)
   rw [first_match p env cfg r q hnd hq hb]
   exact specRoutes_ne_panic p env cfg q cfg.routes
 
+/-- **load_no_panic.** Loading a configuration never reaches the `panic("unreachable")` of `RouteConfig.Route`
+(`case 0` of `switch portCount`): port lists that passed validation denote at least one port. Every other way
+in which `build` / `buildRouter` can fail is an ordinary load error. -/
+theorem load_no_panic (env : Env) (cfg : Config) :
+    buildRouter env cfg ≠ .error .unreachable ∧ ∀ rc, build env rc ≠ .error .unreachable :=
+  ⟨buildRouter_ne_unreachable env cfg, fun rc => build_ne_unreachable env rc⟩
+
 /-! ### the hypotheses are satisfiable -/
 
 def exEnv : Env :=
@@ -216,6 +225,8 @@ example : ∃ (p : Params) (rc : RouteConfig) (q : Req) (d : String) (x : Err),
    rfl, rfl, rfl, rfl, rfl, rfl⟩
 /-- hypotheses of `port_representations_agree` / `port_table_denotes`: the empty table has bit 0 clear -/
 example : PortSet.empty.mem 0 = false := PortSet.mem_empty 0
+/-- the single-port conjuncts of `port_representations_agree` are not vacuous: a table with exactly one port -/
+example : ∃ s : PortSet, s.count = 1 ∧ s.mem 0 = false := ⟨onePort, onePort_count, onePort_zero⟩
 example : ∃ s1 s2, addPorts .badToPorts .empty [] = .ok s1 ∧ addItems .badToPortRanges s1 [] = .ok s2 := ⟨_, _, rfl, rfl⟩
 
 end SSV.C09
@@ -233,3 +244,4 @@ end SSV.C09
 #print axioms SSV.C09.port_representations_agree
 #print axioms SSV.C09.port_table_denotes
 #print axioms SSV.C09.no_panic
+#print axioms SSV.C09.load_no_panic
